@@ -56,14 +56,36 @@ def rule_r1(rep, repo):
         if any(isinstance(n, ast.Call) and norm(n.func) == f"self.{y.name}" for n in ast.walk(x.node)):
             rep.ok("R1.becke-routes-agree", f"{x.name}->{y.name}", x.loc(), "one route delegates to the other")
             return
-    pa, pb = _prod_anchor(fa.node), _prod_anchor(fb.node)
-    if pa is None or pb is None:
-        raise AnalysisError("unrecognised idiom: no `X = np.prod(<cell functions>, axis=-1)` in a Becke route")
-    A = e5.VG(repo, "BeckeWeights", fa.node)
-    _run_until(A, strip_docstring(fa.node.body), pa)
-    B = e5.VG(repo, "BeckeWeights", fb.node)
-    _run_until(B, strip_docstring(fb.node.body), pb)
-    ga, gb = A.env[pa.targets[0].id], B.env[pb.targets[0].id]
+    # the normalised selection `weights += P[:, sel] / np.sum(P, axis=-1)` names the quantity P whose
+    # whole upstream computation (distances -> cell functions -> product over partners) is compared
+    def selections(fn):
+        out = []
+        for n in ast.walk(fn):
+            if isinstance(n, ast.AugAssign) and isinstance(n.op, ast.Add) and isinstance(n.value, ast.BinOp) \
+                    and isinstance(n.value.op, ast.Div) and isinstance(n.value.right, ast.Call) \
+                    and norm(n.value.right.func) in ("np.sum", "np.add.reduce") and n.value.right.args:
+                out.append(n)
+        return out
+    sa, sb = selections(fa.node), selections(fb.node)
+    if not sa or not sb:
+        raise AnalysisError("unrecognised idiom: no `weights += P[:, sel] / np.sum(P, axis=-1)` in a Becke route")
+    single = [n for n in sa if isinstance(n.value.left, ast.Subscript) and isinstance(n.target, ast.Name)
+              and norm(n.value.left.value) == norm(n.value.right.args[0])]
+    sb = [n for n in sb if isinstance(n.target, ast.Name)] or sb
+    if len(single) != 1 or len(sb) != 1:
+        raise AnalysisError("unrecognised idiom: cannot identify the single-sector normalisation statement")
+    Pa, Pb = norm(single[0].value.right.args[0]), norm(sb[0].value.right.args[0])
+
+    def graph_before(f, stmt, name):
+        vg = e5.VG(repo, "BeckeWeights", f.node)
+        for st in strip_docstring(f.node.body):
+            if st is stmt or any(x is stmt for x in ast.walk(st)):
+                break
+            vg.stmt(st)
+        if name not in vg.env:
+            raise AnalysisError(f"unrecognised idiom: `{name}` is not defined before the normalisation in {f.qual}")
+        return vg.env[name]
+    ga, gb = graph_before(fa, single[0], Pa), graph_before(fb, sb[0], Pb)
     d = e5.diff(ga, gb)
     if d is None or e5.algebraically_equal(ga, gb):
         rep.ok("R1.becke-routes-agree", "generate_weights~compute_atom_weight:product", fa.loc(),
@@ -72,24 +94,7 @@ def rule_r1(rep, repo):
         rep.violation("R1.becke-routes-agree", "becke.BeckeWeights.generate_weights", "compute_atom_weight:product",
                       f"the whole-grid route and the per-atom route compute different cell-function products: "
                       f"generate_weights has {e5.show(d[1], 110)} where compute_atom_weight has {e5.show(d[2], 110)}",
-                      repo.rel("becke", pa), [f"first differing node at {d[0]}", f"sibling at {repo.rel('becke', pb)}"])
-    # normalised selection: `weights += P[:, sel] / np.sum(P, axis=-1)`
-    def selection(fn, P, single_guard=None):
-        out = []
-        for n in ast.walk(fn):
-            if isinstance(n, ast.AugAssign) and isinstance(n.op, ast.Add) and isinstance(n.value, ast.BinOp) \
-                    and isinstance(n.value.op, ast.Div):
-                out.append(n)
-        return out
-    sa = selection(fa.node, pa.targets[0].id)
-    sb = selection(fb.node, pb.targets[0].id)
-    if not sa or not sb:
-        raise AnalysisError("unrecognised idiom: no `weights += P[:, sel] / np.sum(P, axis=-1)` in a Becke route")
-    # the single-sector statement of generate_weights is the one whose numerator indexes P itself
-    Pa, Pb = pa.targets[0].id, pb.targets[0].id
-    single = [n for n in sa if isinstance(n.value.left, ast.Subscript) and norm(n.value.left.value) == Pa]
-    if len(single) != 1 or len(sb) != 1:
-        raise AnalysisError("unrecognised idiom: cannot identify the single-sector normalisation statement")
+                      repo.rel("becke", single[0]), [f"first differing node at {d[0]}", f"sibling at {repo.rel('becke', sb[0])}"])
     # binding from the call site in compute_weights: compute_atom_weight(points, atcoords, atnums, select[0])
     call = next((n for n in ast.walk(fc.node) if isinstance(n, ast.Call) and norm(n.func) == "self.compute_atom_weight"
                  and len(n.args) >= 4 and "[" in norm(n.args[3])), None)
